@@ -77,11 +77,12 @@ PROPS = {
     ),
     "C14": dict(
         level="model_checking",
-        level_text="TLC generates every physical layout of the scope (1-3 records of pairwise different sizes, 13 types, every "
-                   "permutation of the physical order, every choice of filler length before/between/after from a small set, three "
-                   "filler contents incl. bytes that look like a record header, header length covering the file, index in logical "
-                   "order) with the TLA+ encoder; the real reader's iteration, typed iteration, random access at every entry and "
-                   "shape_count are validated by TLC against the logical record list and against the index-driven reader model",
+        level_text="TLC generates every physical layout of the scope with the TLA+ encoder: 1-3 records of pairwise different sizes "
+                   "and 3-4 records of EQUAL size, 13 types, every permutation of the physical order, fillers before/between/after "
+                   "(lengths 0/2/6/16, exactly one record's size, 700 bytes; three contents incl. bytes that look like a record header), "
+                   "header length covering the file, index in logical order; the real reader's iteration, typed iteration, random "
+                   "access at every entry and shape_count are validated by TLC against the logical record list and the index-driven "
+                   "reader model",
         level_note="trusted: TLC and the TLA+ encoder; generator scope (n <= 3, 4 in thorough; filler lengths {0,2,6,16})",
         technique="behaviour replay: TLC-generated layouts read by the real code, results validated by TLC",
         mc=[CODEC_MC],
@@ -92,9 +93,10 @@ PROPS = {
     "C15": dict(
         level="model_checking",
         level_text="TLC explores every history up to the bound on the reader specification (the set A of allowed iteration starts) "
-                   "and checks that the conforming mechanism refines it; the same histories plus the harness's enumeration and long "
-                   "random ones are performed on the real ShapeReader and complete Reader (files of different-size and equal-size "
-                   "records, with and without index) and every recorded return value must be a step of the specification",
+                   "and checks that the conforming mechanism refines it; the same histories plus the harness's enumeration (incl. failing "
+                   "typed random accesses), long random ones and a 1 500-record file are performed on the real ShapeReader (generic and "
+                   "typed entry points) and complete Reader (files of different-size and equal-size records, with and without index, "
+                   "in memory and by path) and every recorded return value must be a step of the specification",
         level_note="trusted: TLC, the mapping of returned shapes/rows to record indices (records are pairwise distinct)",
         technique=TECH_TRACE,
         mc=[READER_MC], stages=[READER_STAGE],
@@ -103,10 +105,10 @@ PROPS = {
     "C06": dict(
         level="model_checking",
         level_text="TLC generates (TLA+ encoder) every file whose records have any sequence of at most two of the 14 type codes and "
-                   "every (a, a, b); the real library reads each as each of the 13 concrete types (read_as, typed iteration) and "
-                   "generically (read + convert_shapes_to_vec_of); TLC validates each result against the typed-read rule of the "
-                   "specification (first record of another type => MismatchShapeType{requested S, actual T}, otherwise equal to the "
-                   "generic result), the four type identities per record and the concrete->generic->concrete round trip",
+                   "every (a, a, b) (thorough: every triple); the real library reads each as each of the 13 concrete types (read_as, "
+                   "typed iteration) and generically (read + convert_shapes_to_vec_of), on fresh readers, after seek(1), and through the "
+                   "by-path one-liners with an index that lists the records in reverse; TLC validates each result against the typed-read "
+                   "rule of the specification, the four type identities per record and the concrete->generic->concrete round trip",
         level_note="trusted: TLC and the TLA+ encoder; one small shape per type (the property is about types, not geometry)",
         technique="behaviour replay: TLC-generated mixed-type files read by the real code, results validated by TLC",
         mc=[dict(module="MC_Types", quick="MC_Types.cfg", workers=2)],
@@ -219,9 +221,12 @@ PROPS = {
     ),
     "C01": dict(
         level="model_checking",
-        level_text="TLC checks in a small scope that the specification's reader model inverts its reference encoder up to the "
-                   "C01 relation; every recorded write/read execution of the real code (all 16 routes) is validated against that "
-                   "relation by TLC. Bounded by the sampled shapes and concretisations.",
+        level_text="TLC checks in a small scope that the specification's reader model inverts its reference encoder up to the C01 "
+                   "relation (MC_Codec) and that the reader sees exactly the accepted shapes at every commit point of every bounded "
+                   "writer history (Inv_ReaderSeesWritten); the scope of MC_Codec is replayed on the real code (Gen_Shapes), plus random "
+                   "files of 1..4 shapes of all 13 types (up to 1 100 parts / points, empty non-first rings and patches, special "
+                   "Z/M values at every vertex position) under several concretisations; every write/read execution along 22 routes "
+                   "(generic/typed x sequential/random/collecting x with/without .shx x cursors/files/one-liners) is validated by TLC",
         level_note="trusted: TLC, the harness's id<->f64 tables and its use of public constructors/accessors; claims hold for the explored cases",
         technique=TECH_TRACE,
         mc=[CODEC_MC],
@@ -237,7 +242,9 @@ PROPS = {
     "C02": dict(
         level="model_checking",
         level_text="the strict validator/decoder is a TLA+ operator written from the whitepaper; TLC proves in a small scope that it "
-                   "inverts the reference encoder and then executes it on the bytes the real writer produced in every recorded case",
+                   "inverts the reference encoder and then executes it on the bytes the real writer produced: after drop, after an "
+                   "explicit finalize, by path over files that already existed (longer), for the Gen_Shapes scope, random cases and "
+                   "every writer history with finalizes and rejected writes; ShapeReader::header() is compared with the decoded header",
         level_note="trusted: TLC and the TLA+ StrictShp operator (checked against the reference encoder by MC_Codec)",
         technique="TLA+ strict decoder evaluated by TLC on real output bytes (trace validation) + TLC model check of decoder/encoder",
         mc=[CODEC_MC, WRITER_MC],
@@ -296,9 +303,10 @@ PROPS = {
     "C05": dict(
         level="model_checking",
         level_text="TLC checks on the writer model that the incrementally folded header box equals the declarative extremes at "
-                   "every commit point of every bounded history; per-shape boxes of constructed values, the box bytes of their "
-                   "records and the header box bytes of every recorded real file are compared by TLC with the extremes computed by "
-                   "rank on the value ids, under concretisations that include +-inf, +-f64::MAX and their neighbours",
+                   "every commit point of every bounded history; per-shape boxes of constructed values (also of shapes obtained from "
+                   "geo-types geometries), the box bytes of their records and the header box of every recorded real file are compared "
+                   "by TLC with the extremes computed by rank on the value ids, under concretisations that include +-inf, +-f64::MAX "
+                   "and their neighbours, with measure profiles (all real / all no-data / all below the threshold)",
         level_note="trusted: TLC, the id<->f64 tables (order-preserving by construction, asserted at run time); NaN-free shapes only, "
                    "no claim on the header M range of multipatch files and of files containing no-data measures (as the property says)",
         technique=TECH_TRACE,
